@@ -7,6 +7,7 @@ Full statement (`C01_full_statement`) vs what is proved (`C01_partial`): see the
 import SqlframeModel.Lemmas.C01Steps
 import SqlframeModel.Lemmas.C01Dropna
 import SqlframeModel.Lemmas.Sorted
+import SqlframeModel.Lemmas.C01ExprKey
 namespace Sqlframe
 open Gen
 
@@ -405,12 +406,89 @@ instance decStepsWF : (T : Table) → (steps : List Step) → Decidable (StepsWF
 example : exTable.WF ∧ StepsWF exTable exSteps ∧ noAdjacentOrderBy exSteps = true ∧ exSteps.all Step.inTheorem = true := by decide
 example : ((DF.init exTable).run exSteps).eval = { cols := ["x", "z"], rows := [[.int 2, .int 9]] } := by decide
 
+/-! ### sort keys that are expressions
+
+The engine reads a name inside an ORDER BY *expression* as the input column of the block; PySpark sorts by the value of
+the expression over the output of the previous step.  `orderBy` (its guard regenerated as `Gen.orderRedefined`,
+`Gen.orderExprGuard`, `Gen.orderGuardSkipsBareKeys`) freezes the block first when a sort expression mentions a name the
+block redefined. -/
+
+/-- **expression sort keys.** For every DataFrame state reachable by a chain (any `d` with the invariant), whatever
+    faithful view sqlglot gives of the select list, every list of sort expressions over the current columns: after
+    `orderBy`'s preparation the DataFrame still means the same table, and on EVERY input row each non-bare key has the
+    same value under the engine's reading (names = input columns of the open block) as under PySpark's (names = columns
+    of the current result).  The sort the engine performs is therefore the sort by PySpark's key values. -/
+theorem C01_exprkey_resolution (v : Name × Expr → SelItem) (hv : Faithful v) (d : DF) (keys : List Expr)
+    (h : Inv d) (hrefs : ∀ k ∈ keys, ∀ n ∈ k.refs, n ∈ d.outNames) :
+    (prepOrderBy v keys d).eval = d.eval ∧ Inv (prepOrderBy v keys d) ∧
+    ∀ k ∈ keys, k.isBare = false → ∀ r : Row,
+      eval (prepOrderBy v keys d).outNames
+        ((prepOrderBy v keys d).blk.sel.map (fun it => eval (prepOrderBy v keys d).src.cols r it.2)) k
+      = eval (prepOrderBy v keys d).src.cols r k := by
+  unfold prepOrderBy
+  by_cases hw : exprKeyNeedsWrap v d.blk.sel keys = true
+  · -- frozen: every item of the new block is an identity item
+    rw [if_pos hw]
+    refine ⟨wrap_eval d h, (wrap_fresh d h).inv, ?_⟩
+    intro k hk _ r
+    have hsel : d.wrap.blk.sel = identSel d.eval.cols := rfl
+    have hcols : d.eval.cols = d.outNames := rfl
+    show eval (d.wrap.blk.sel.map (·.1)) _ k = _
+    apply eval_project_ident
+    intro n hn
+    refine ⟨(n, .col n), ?_, rfl⟩
+    rw [hsel]
+    exact find_identSel _ n (by rw [hcols]; exact hrefs k hk n hn)
+  · -- not frozen: no sort expression mentions a redefined name, so every name it mentions is an identity item
+    rw [if_neg hw]
+    refine ⟨rfl, h, ?_⟩
+    intro k hk hb r
+    show eval (d.blk.sel.map (·.1)) _ k = _
+    apply eval_project_ident
+    intro n hn
+    have hmem : n ∈ d.blk.sel.map (·.1) := hrefs k hk n hn
+    obtain ⟨it, hit, hname⟩ := List.mem_map.mp hmem
+    cases hf : d.blk.sel.find? (fun it => it.1 = n) with
+    | none =>
+      have := List.find?_eq_none.mp hf it hit
+      simp [hname] at this
+    | some it' =>
+      refine ⟨it', rfl, ?_⟩
+      have hit' : it' ∈ d.blk.sel := List.mem_of_find?_eq_some hf
+      have hn' : it'.1 = n := by simpa using List.find?_some hf
+      have hnr : orderRedefined (v it') = false := by
+        cases hr : orderRedefined (v it') with
+        | false => rfl
+        | true =>
+          exfalso
+          apply hw
+          have hin := redefined_mem v hv d.blk.sel it' hit' hr
+          rw [hn'] at hin
+          have hg : orderExprGuard = true := rfl
+          have hs : orderGuardSkipsBareKeys = true := rfl
+          unfold exprKeyNeedsWrap
+          simp only [hg, hs, Bool.true_and, List.any_eq_true, Bool.and_eq_true, Bool.not_eq_true', decide_eq_true_eq]
+          exact ⟨k, hk, hb, n, hn, hin⟩
+      have := not_redefined_ident v hv it' hnr
+      rw [this, hn']
+
+/-- both ways sqlglot can show an identity item are covered -/
+example : Faithful viewBare ∧ Faithful viewAliased := ⟨viewBare_faithful, viewAliased_faithful⟩
+
+/-- non-vacuity: `select((v * -1).alias('v'), 'k').orderBy(col('v') + 1)` is frozen first, `select('k', 'v').orderBy(col('v') + 1)` is not -/
+example :
+    exprKeyNeedsWrap viewBare [("v", .bin .mul (.col "v") (.lit (.int (-1)))), ("k", .col "k")] [.bin .add (.col "v") (.lit (.int 1))] = true ∧
+    exprKeyNeedsWrap viewBare [("k", .col "k"), ("v", .col "v")] [.bin .add (.col "v") (.lit (.int 1))] = false ∧
+    exprKeyNeedsWrap viewAliased [("w", .col "v")] [.neg (.col "w")] = true ∧
+    exprKeyNeedsWrap viewBare [("v", .neg (.col "v"))] [.col "v"] = false := by decide
+
 /-! ### the full statement, for the record
 
 C01 as given quantifies over *all* single-input transformations.  `C01_partial` proves it for the
 thirteen step kinds above.  Not covered by a theorem (they are exercised only by the correspondence
 stream, implementation vs executable specification): 
-`dropDuplicates(subset)`, `groupBy().agg()` as a step (see C06), expression order keys, and the
+`dropDuplicates(subset)`, `groupBy().agg()` as a step (see C06), the sort over expression keys as a step of the chain
+(their *values* are settled by `C01_exprkey_resolution`), and the
 tie order of a second `orderBy` (see `C01_orderBy_twice`). -/
 def C01_full_statement : Prop :=
   ∀ (T : Table) (steps : List Step), T.WF → StepsWF T steps → ((DF.init T).run steps).eval = specRun T steps
